@@ -32,8 +32,9 @@ theorem postfix_bounds_every_trace (S : List Summary) (p : List Stmt) (A : Pts)
 /-- both executable closedness checks establish the hypothesis of `postfix_bounds_every_trace` -/
 theorem closedness_checks_sound (S : List Summary) (p : List Stmt) (A : Pts) :
     (isPost S p A = true → ∀ s, s ∈ p → Le (step S s A) A) ∧
-    (passClosed S p A = true → ∀ s, s ∈ p → Le (step S s A) A) :=
-  ⟨isPost_sound, passClosed_sound⟩
+    (passClosed S p A = true → ∀ s, s ∈ p → Le (step S s A) A) ∧
+    (closedB S p A = true → ∀ s, s ∈ p → Le (step S s A) A) :=
+  ⟨isPost_sound, passClosed_sound, closedB_sound⟩
 
 example : isPost [] [.param 0 0, .elem 1 0, .shallow 2 [0], .write 2] (analyse [] [.param 0 0, .elem 1 0, .shallow 2 [0], .write 2] 2) = true := by
   decide
@@ -49,16 +50,16 @@ theorem dedup_eq_nil {α : Type} [DecidableEq α] : ∀ {l : List α}, dedup l =
     · simp only [ha, if_false] at h
       cases h
 
-/-- **Soundness of the analysis (parameters).** If the analysis reached a closed table and flags no parameter, then no
-execution of the program — any trace, any initial versions — changes the version of any parameter object or of anything
-below it. -/
-theorem mayWrite_sound (S : List Summary) (p : List Stmt) (fuel : Nat)
-    (hok : analysisOK S p fuel = true) (h : mayWrite S p fuel = []) :
+/-- **Soundness of the analysis (parameters).** For any table `A` closed under the program: if no parameter object is in the
+write set bounded by `A`, then no execution of the program — any trace, any initial versions — changes the version of any
+parameter object or of anything below it. -/
+theorem mayWriteIn_sound (S : List Summary) (p : List Stmt) (A : Pts)
+    (hclosed : ∀ s, s ∈ p → Le (step S s A) A) (h : mayWriteIn S p A = []) :
     ∀ (tr : List Nat) (ver : Obj → Nat) (i : Nat),
       (execTrace S p tr (entry ver)).ver (.root i) = ver (.root i) ∧
       (execTrace S p tr (entry ver)).ver (.inner i) = ver (.inner i) := by
   intro tr ver i
-  have hb := (postfix_bounds_every_trace S p (analyse S p fuel) (passClosed_sound hok) tr ver).2
+  have hb := (postfix_bounds_every_trace S p A hclosed tr ver).2
   have hnil := dedup_eq_nil h
   rw [List.filterMap_eq_nil_iff] at hnil
   constructor
@@ -71,6 +72,14 @@ theorem mayWrite_sound (S : List Summary) (p : List Stmt) (fuel : Nat)
     have := hnil _ hmem
     simp [paramOf] at this
 
+/-- the same with the table computed by the analysis itself (`fuel` passes, then checked closed) -/
+theorem mayWrite_sound (S : List Summary) (p : List Stmt) (fuel : Nat)
+    (hok : analysisOK S p fuel = true) (h : mayWrite S p fuel = []) :
+    ∀ (tr : List Nat) (ver : Obj → Nat) (i : Nat),
+      (execTrace S p tr (entry ver)).ver (.root i) = ver (.root i) ∧
+      (execTrace S p tr (entry ver)).ver (.inner i) = ver (.inner i) :=
+  mayWriteIn_sound S p (analyse S p fuel) (passClosed_sound hok) h
+
 example : analysisOK [] [.param 0 0, .shallow 1 [0], .write 1] 2 = true ∧ mayWrite [] [.param 0 0, .shallow 1 [0], .write 1] 2 = [] := by
   decide
 
@@ -81,12 +90,12 @@ theorem mayWrite_flags_alias_and_element_writes :
   decide
 
 /-- **Soundness of the analysis (process-wide objects).** -/
-theorem mayWriteGlobal_sound (S : List Summary) (p : List Stmt) (fuel : Nat)
-    (hok : analysisOK S p fuel = true) (h : mayWriteGlobal S p fuel = []) :
+theorem mayWriteGlobalIn_sound (S : List Summary) (p : List Stmt) (A : Pts)
+    (hclosed : ∀ s, s ∈ p → Le (step S s A) A) (h : mayWriteGlobalIn S p A = []) :
     ∀ (tr : List Nat) (ver : Obj → Nat) (g : Nat),
       (execTrace S p tr (entry ver)).ver (.glob g) = ver (.glob g) := by
   intro tr ver g
-  have hb := (postfix_bounds_every_trace S p (analyse S p fuel) (passClosed_sound hok) tr ver).2
+  have hb := (postfix_bounds_every_trace S p A hclosed tr ver).2
   have hnil := dedup_eq_nil h
   rw [List.filterMap_eq_nil_iff] at hnil
   apply hb
@@ -98,18 +107,18 @@ example : mayWriteGlobal [] [.global 0 3, .elem 1 0] 2 = [] ∧ mayWriteGlobal [
 
 /-- a call that the analysis finds free of parameter and global writes -/
 def PureCall (S : List Summary) (c : Call) : Prop :=
-  ∃ fuel, analysisOK S c.prog fuel = true ∧ mayWrite S c.prog fuel = [] ∧ mayWriteGlobal S c.prog fuel = []
+  ∃ A, closedB S c.prog A = true ∧ mayWriteIn S c.prog A = [] ∧ mayWriteGlobalIn S c.prog A = []
 
 /-- frame lemma for one call: every caller-visible object keeps its version -/
 theorem pure_call_frame (S : List Summary) (c : Call) (hc : PureCall S c) (ver : Obj → Nat) :
     ∀ o, isCaller o = true → runCall S c ver o = ver o := by
-  obtain ⟨fuel, hok, hw, hg⟩ := hc
+  obtain ⟨A, hok, hw, hg⟩ := hc
   intro o ho
   unfold runCall
   cases o with
-  | root i => exact (mayWrite_sound S c.prog fuel hok hw c.trace ver i).1
-  | inner i => exact (mayWrite_sound S c.prog fuel hok hw c.trace ver i).2
-  | glob g => exact mayWriteGlobal_sound S c.prog fuel hok hg c.trace ver g
+  | root i => exact (mayWriteIn_sound S c.prog A (closedB_sound hok) hw c.trace ver i).1
+  | inner i => exact (mayWriteIn_sound S c.prog A (closedB_sound hok) hw c.trace ver i).2
+  | glob g => exact mayWriteGlobalIn_sound S c.prog A (closedB_sound hok) hg c.trace ver g
   | loc s => simp [isCaller] at ho
 
 /-- **History independence**: after any history (any length, any traces) of pure calls every caller-visible object has the
@@ -133,7 +142,8 @@ theorem later_query_same_result {β : Type} (S : List Summary) (h : List Call) (
     result (runHistory S h ver) = result ver :=
   hres _ _ (fun o ho => history_independent S h hq ver o ho)
 
-example : PureCall [] ⟨[.param 0 0, .shallow 1 [0], .write 1], [2, 1, 0, 2, 2]⟩ := ⟨2, by decide, by decide, by decide⟩
+example : PureCall [] ⟨[.param 0 0, .shallow 1 [0], .write 1], [2, 1, 0, 2, 2]⟩ :=
+  ⟨analyse [] [.param 0 0, .shallow 1 [0], .write 1] 2, by decide, by decide, by decide⟩
 
 /-! ## obligations over the regenerated module -/
 
@@ -160,32 +170,32 @@ theorem summaries_closed : (List.range Gen.fns.length).all (fun f => closedAt Ge
 /-- every API member that is not a declared editor writes no parameter and no process-wide object -/
 theorem generated_queries_pure :
     Gen.api.all (fun e => e.editor || e.random || isOutside e ||
-      fnOK e.fid (fun i => analysisOK Gen.summaries i.prog i.fuel && (mayWrite Gen.summaries i.prog i.fuel == []) &&
-        (mayWriteGlobal Gen.summaries i.prog i.fuel == []))) = true := by
+      fnOK e.fid (fun i => closedB Gen.summaries i.prog i.table && (mayWriteIn Gen.summaries i.prog i.table == []) &&
+        (mayWriteGlobalIn Gen.summaries i.prog i.table == []))) = true := by
   decide +kernel
 
 /-- declared editors (add_*, pop_*, clear_*, setters, inplace=True, constructors) write nothing but their own object
 (parameter 0) and no process-wide object -/
 theorem generated_editors_write_only_target :
     Gen.api.all (fun e => !e.editor || e.random || isOutside e ||
-      fnOK e.fid (fun i => analysisOK Gen.summaries i.prog i.fuel &&
-        (mayWrite Gen.summaries i.prog i.fuel).all (fun j => j == 0) &&
-        (mayWriteGlobal Gen.summaries i.prog i.fuel == []))) = true := by
+      fnOK e.fid (fun i => closedB Gen.summaries i.prog i.table &&
+        (mayWriteIn Gen.summaries i.prog i.table).all (fun j => j == 0) &&
+        (mayWriteGlobalIn Gen.summaries i.prog i.table == []))) = true := by
   decide +kernel
 
 /-- `shuffle` is random by contract: it may consume the module generator (object 0) and nothing else; its non-inplace
 form writes no parameter -/
 theorem generated_random_only_rng :
     Gen.api.all (fun e => !e.random ||
-      fnOK e.fid (fun i => analysisOK Gen.summaries i.prog i.fuel &&
-        (mayWrite Gen.summaries i.prog i.fuel).all (fun j => e.editor && j == 0) &&
-        (mayWriteGlobal Gen.summaries i.prog i.fuel).all (fun g => g == 0))) = true := by
+      fnOK e.fid (fun i => closedB Gen.summaries i.prog i.table &&
+        (mayWriteIn Gen.summaries i.prog i.table).all (fun j => e.editor && j == 0) &&
+        (mayWriteGlobalIn Gen.summaries i.prog i.table).all (fun g => g == 0))) = true := by
   decide +kernel
 
 /-- property getters are read as plain field access by the translator; they are analysed too and write nothing -/
 theorem getters_pure :
-    Gen.getters.all (fun f => fnOK f (fun i => analysisOK Gen.summaries i.prog i.fuel &&
-      (mayWrite Gen.summaries i.prog i.fuel == []) && (mayWriteGlobal Gen.summaries i.prog i.fuel == []))) = true := by
+    Gen.getters.all (fun f => fnOK f (fun i => closedB Gen.summaries i.prog i.table &&
+      (mayWriteIn Gen.summaries i.prog i.table == []) && (mayWriteGlobalIn Gen.summaries i.prog i.table == []))) = true := by
   decide +kernel
 
 /-- every public callable that accepts an annotation / dict / list is analysed or explicitly declared outside -/
@@ -196,9 +206,9 @@ theorem api_covered :
 /-- the regenerated pure API members are `PureCall`s for every trace, so the history theorems apply to them -/
 theorem generated_query_is_pure_call (e : Gen.ApiEntry) (i : FnInfo)
     (hi : Gen.fns[e.fid]? = some i)
-    (hok : analysisOK Gen.summaries i.prog i.fuel = true) (hw : mayWrite Gen.summaries i.prog i.fuel = [])
-    (hg : mayWriteGlobal Gen.summaries i.prog i.fuel = []) (tr : List Nat) :
+    (hok : closedB Gen.summaries i.prog i.table = true) (hw : mayWriteIn Gen.summaries i.prog i.table = [])
+    (hg : mayWriteGlobalIn Gen.summaries i.prog i.table = []) (tr : List Nat) :
     PureCall Gen.summaries ⟨i.prog, tr⟩ :=
-  ⟨i.fuel, hok, hw, hg⟩
+  ⟨i.table, hok, hw, hg⟩
 
 end C08
